@@ -11,6 +11,7 @@ Record prec := {
   p_intensity : option Q;     (* None = NaN *)
   p_pep : option Q;           (* None = NaN: a match-between-runs row *)
   p_silac : list Q;
+  p_tmt : list Q;             (* 3 values per TMT channel: corrected, raw, count *)
   p_id : Z
 }.
 
@@ -74,6 +75,12 @@ Definition intensities (cut : Q) (exps : list str) (nsilac : nat) (l : list prec
     qsum (map (fun r => match p_intensity r with Some x => x | None => (0#1)%Q end) used) ::
     map (fun k => qsum (map (fun r => nth k (p_silac r) (0#1)%Q) used)) (seq 0 nsilac)) exps.
 
+(* columns/tmt.py: per experiment one sum per reporter column over the counted rows (no intensity test here) *)
+Definition tmt_intensities (cut : Q) (exps : list str) (width : nat) (l : list prec) : list Q :=
+  flat_map (fun e =>
+    let used := filter (fun r => counts cut r && in_exp e r) l in
+    map (fun k => qsum (map (fun r => nth k (p_tmt r) (0#1)%Q) used)) (seq 0 width)) exps.
+
 Fixpoint every (step : nat) (l : list Q) (fuel : nat) : list Q :=       (* l[::step] *)
   match fuel, l with
   | S f, x :: _ => x :: every step (skipn step l) f
@@ -118,3 +125,11 @@ Definition quantify (ibaq : list (str * nat)) (cutoff_of : list Q -> Q) (nsilac 
   | Ok l => Ok (exps, l)
   | Raise e => Raise e
   end.
+
+(* the TMT reporter cells of the same table: one list per group with precursors *)
+Definition quantify_tmt (cutoff_of : list Q -> Q) (width : nat) (groups : list (list str)) (rows : list prec) : list (list Q) :=
+  let s := create_index (of_list groups) in
+  let exps := experiments rows in
+  let cut := cutoff_of (cutoff_peps s rows) in
+  map (fun ig => tmt_intensities cut exps width (retain cut (attached s rows (fst ig))))
+      (filter (fun ig => nonempty (attached s rows (fst ig))) (combine (seq 0 (length groups)) groups)).
